@@ -61,20 +61,25 @@ theorem C01_driver_total (h : p.Accepted) (x : String) (hx : x ∈ mainNames) (i
     ∃ fuel v c', getElem main p.env fuel x idx ∅ = .ok (v, c') :=
   Problem.driver_total h x hx idx
 
-omit [LawfulThresholds K] in
 /-- **C01** the transitivity clause of `Accepted` (the kept part of a block whose masks the algorithm may treat as commuting is closed under multiplication) is
 not a condition on the input: a fully diagonalised block keeps together the levels connected by steps below `atol` (the code's `_transitive_closure` of
 "equal within atol"), which is an equivalence whatever the energies and the tolerance -/
-theorem C01_kept_pattern_transitive (hev : AbsLtEven K) (a b c : Fin p.d) (hc : p.commuting (p.blk a.val) = true)
+theorem C01_kept_pattern_transitive (a b c : Fin p.d) (hc : p.commuting (p.blk a.val) = true)
     (hab : p.keptE a.val b.val = true) (hcb : p.keptE c.val b.val = true) : p.keptE a.val c.val = true :=
-  comm_trans_holds hev a b c hc hab hcb
+  comm_trans_holds a b c hc hab hcb
+
+/-- **C01** masks and denominators agree: inside a block fully diagonalised by the list form, an entry that is not kept is one whose energy difference the
+diagonal solver divides by (`|ΔE| > atol`); "equal" is `|ΔE| ≤ atol`, the complement (D38: it used to be `<`, leaving `|ΔE| = atol` to neither) -/
+theorem C01_masks_and_denominators_agree (a b : Fin p.d) (hblk : p.blk a.val = p.blk b.val) (l : List Nat) (hfd : p.fdEff = .tuple l)
+    (hk : p.keptE a.val b.val = false) : Scalar.absGt (p.energy a.val - p.energy b.val) p.atol = true :=
+  gap_same_block_tuple a.isLt b.isLt hblk hfd hk
 
 /-- **C01** without the transitivity clause: `U†·H·U = H̃` and the zeros on the eliminated entries for every problem that meets the remaining clauses
 (`AcceptedCore`), in particular when levels are equal within `atol` only through a chain of neighbours -/
-theorem C01_chains_of_close_levels (hev : AbsLtEven K) (h : p.AcceptedCore) (h2 : (2 : K) ≠ 0) :
+theorem C01_chains_of_close_levels (h : p.AcceptedCore) (h2 : (2 : K) ≠ 0) :
     p.sr "U†" * p.sr "H" * p.sr "U" = p.sr "H_tilde" ∧
       ∀ (m : Fin p.nparams →₀ ℕ) (a b : Fin p.d), p.keptE a.val b.val = false → coeff m (p.sr "U†" * p.sr "H" * p.sr "U") a b = 0 :=
-  ⟨Problem.C01 (h.accepted hev) h2, fun m a b hk => Problem.C01_elim (h.accepted hev) h2 m a b hk⟩
+  ⟨Problem.C01 h.accepted h2, fun m a b hk => Problem.C01_elim h.accepted h2 m a b hk⟩
 
 /-! Non-vacuity: concrete accepted problems over ℚ — three 1×1 blocks; two blocks with a partial mask on one of them and a
 degenerate kept pair; the default two-block call (optimised flags on); a single block with two parameters. -/
@@ -82,7 +87,7 @@ example : w3.sr "U†" * w3.sr "H" * w3.sr "U" = w3.sr "H_tilde" := C01_similari
 example : wd.sr "U†" * wd.sr "H" * wd.sr "U" = wd.sr "H_tilde" := C01_similarity wd_accepted (by norm_num)
 example : w2.sr "U†" * w2.sr "H" * w2.sr "U" = w2.sr "H_tilde" := C01_similarity w2_accepted (by norm_num)
 -- a chain of levels 0, 7, 14 under `atol = 10` in a fully diagonalised block: the ends are farther apart than `atol` and kept together all the same
-example : wchain.sr "U†" * wchain.sr "H" * wchain.sr "U" = wchain.sr "H_tilde" := (C01_chains_of_close_levels absLtEven_rat wchain_core (by norm_num)).1
+example : wchain.sr "U†" * wchain.sr "H" * wchain.sr "U" = wchain.sr "H_tilde" := (C01_chains_of_close_levels wchain_core (by norm_num)).1
 example : w1.sr "U†" * w1.sr "H" * w1.sr "U" = w1.sr "H_tilde" := C01_similarity w1_accepted (by norm_num)
 example : wd.keptE 0 1 = false ∧ wd.keptE 2 3 = true ∧ wd.twoBlockOptimized = false ∧ w2.twoBlockOptimized = true := by
   decide +kernel
